@@ -1,6 +1,7 @@
 package value
 
 import (
+	"errors"
 	"fmt"
 	"github.com/hneemann/iterator"
 	"github.com/hneemann/parser2/funcGen"
@@ -170,6 +171,9 @@ func Sub(fg *FunctionGenerator) OperationMatrix {
 func Left(fg *FunctionGenerator) OperationMatrix {
 	m := NewOperationMatrix(fg, "<<")
 	m.Register(IntTypeId, IntTypeId, func(st funcGen.Stack[Value], a, b Value) (Value, error) {
+		if b.(Int) < 0 {
+			return nil, errors.New("negative shift count")
+		}
 		return a.(Int) << b.(Int), nil
 	})
 	return m
@@ -178,6 +182,9 @@ func Left(fg *FunctionGenerator) OperationMatrix {
 func Right(fg *FunctionGenerator) OperationMatrix {
 	m := NewOperationMatrix(fg, ">>")
 	m.Register(IntTypeId, IntTypeId, func(st funcGen.Stack[Value], a, b Value) (Value, error) {
+		if b.(Int) < 0 {
+			return nil, errors.New("negative shift count")
+		}
 		return a.(Int) >> b.(Int), nil
 	})
 	return m
@@ -186,6 +193,9 @@ func Right(fg *FunctionGenerator) OperationMatrix {
 func Mod(fg *FunctionGenerator) OperationMatrix {
 	m := NewOperationMatrix(fg, "%")
 	m.Register(IntTypeId, IntTypeId, func(st funcGen.Stack[Value], a, b Value) (Value, error) {
+		if b.(Int) == 0 {
+			return nil, errors.New("modulo by zero")
+		}
 		return a.(Int) % b.(Int), nil
 	})
 	return m
